@@ -100,20 +100,43 @@ def _has_bound(t):
   return False
 
 
+_SCAN = {}
+
+
+def _scan(t):
+  """(card arguments, rangeset terms) of one top-level term, memoised (terms
+  are hash-consed and kept alive by the cache)."""
+  key = t.get_id()
+  hit = _SCAN.get(key)
+  if hit is not None and hit[0].eq(t):
+    return hit[1], hit[2]
+  cards = []
+  _collect(t, cards, set())
+  rsd = {}
+  _collect_rs(t, rsd, set())
+  _SCAN[key] = (t, cards, list(rsd.values()))
+  if len(_SCAN) > 200000:
+    _SCAN.clear()
+  return cards, list(rsd.values())
+
+
 def instantiate(terms, max_sets=28):
   """Return a list of lemma instances for the card terms in `terms`."""
   goal_ids = set()
   roots = []
-  seen = set()
+  rs = {}
+  have = set()
   for t in reversed(terms):        # the goal comes last: its sets first
+    cards, rsl = _scan(t)
     n0 = len(roots)
-    _collect(t, roots, seen)
+    for a in cards:
+      if a.get_id() not in have:
+        have.add(a.get_id())
+        roots.append(a)
+    for x in rsl:
+      rs[x.get_id()] = x
     if t is terms[-1]:
       goal_ids = {z3.simplify(r).get_id() for r in roots[n0:]}
-  rs = {}
-  seen_rs = set()
-  for t in terms:
-    _collect_rs(t, rs, seen_rs)
   work = []
   ids = {}
 
